@@ -26,6 +26,11 @@ def files():
     # the same message type required twice (siblings) and once more below another required message
     req.field.append(G.F("second_inner", 13, T.TYPE_MESSAGE, type_name=P + ".Inner", **R))
     req.field.append(G.F("holder", 14, T.TYPE_MESSAGE, type_name=P + ".Holder", **R))
+    # required repeated fields of every literal kind (their values are printed into the sample as Python literals)
+    req.field.append(G.F("flags", 15, T.TYPE_BOOL, label=G.REPEATED, **R))
+    req.field.append(G.F("chunks", 16, T.TYPE_BYTES, label=G.REPEATED, **R))
+    req.field.append(G.F("kinds", 17, T.TYPE_ENUM, label=G.REPEATED, type_name=P + ".Color", **R))
+    req.field.append(G.F("sizes", 18, T.TYPE_INT32, label=G.REPEATED, **R))
     req.oneof_decl.add(name="source")
     req.field.append(G.F("by_id", 11, T.TYPE_STRING, oneof_index=0))
     req.field.append(G.F("by_inner", 12, T.TYPE_MESSAGE, type_name=P + ".Inner", oneof_index=0))
@@ -47,6 +52,9 @@ def files():
     m("GetPolicy", ".google.iam.v1.GetIamPolicyRequest", ".google.iam.v1.Policy", http=("get", "/v1/{resource=shelves/*}:getPolicy"))
     # an rpc whose snake-case name is a Python keyword (the client defines `import_`)
     m("Import", P + ".DeleteThingRequest", P + ".Thing", http=("post", "/v1/{name=shelves/*/things/*}:import"), body="*")
+    # a second service of the same package with its own default host: its region tags carry its own host shortname
+    adm = G.add_service(fd, "LabAdmin", host="labadmin.googleapis.com")
+    G.add_method(adm, "Ping", P + ".DeleteThingRequest", P + ".Thing", http=("get", "/v1/{name=shelves/*/things/*}:ping"))
     return [fd]
 
 
@@ -133,7 +141,7 @@ def scenarios():
         if st[0] in tags:
             failures.append({"file": path, "what": "region tag is not unique", "tag": st[0], "other": tags[st[0]]})
         tags[st[0]] = path
-    want_tags = {f"lab_v1_generated_Lab_{r}_{k}" for r in RPCS for k in ("sync", "async")}
+    want_tags = {f"lab_v1_generated_Lab_{r}_{k}" for r in RPCS for k in ("sync", "async")} | {f"labadmin_v1_generated_LabAdmin_Ping_{k}" for k in ("sync", "async")}
     n += 1
     if set(tags) != want_tags:
         failures.append({"what": "region tags are not exactly <shortname>_<version>_generated_<Service>_<Rpc>_<sync|async> for every rpc",
@@ -204,6 +212,8 @@ def scenarios():
                         f_["known"] = "keyword-rpc-name"
                     failures.append(f_)
                     continue
+                if rpc is None:
+                    continue            # samples of the second service: tag, uniqueness and compilation only
                 # public generated types only
                 imports = re.findall(r"^(?:from (\S+) import (\S+)|import (\S+))", text, re.M)
                 for frm, name, imp in imports:
